@@ -198,7 +198,8 @@ class WordSource:
         return self.rng.choice(["Zq", "Vx", "Kj", "Wy"]) + f"{self.n}" + self.rng.choice(["", "a", "bc"])
 
 
-def gen_batch(rng, doc, texts, n_edits, kinds, states=("plain",), comment_p=0.0, allow_same_para=True, same_para_bias=0.5):
+def gen_batch(rng, doc, texts, n_edits, kinds, states=("plain",), comment_p=0.0, allow_same_para=True, same_para_bias=0.5,
+              allow_collisions=False):
     """Non-overlapping exact unique targets; -> list of edit dicts (target, new, comment, where...)."""
     pvs = [ParaView(si, pi, p) for pi, (si, p) in enumerate(sem.all_paragraphs(doc))]
     pvs = [pv for pv in pvs if len(pv.acc) >= 2]
@@ -225,6 +226,11 @@ def gen_batch(rng, doc, texts, n_edits, kinds, states=("plain",), comment_p=0.0,
             continue
         kind = rng.choice(kinds)
         new = new_text_for(rng, t["target"], kind, word)
+        if not allow_collisions and (any(t["target"] in (e["new"] or "") for e in edits) or
+                                     any(e["target"] in new for e in edits if e["target"] != t["target"])):
+            # (the engine matches against the document as the batch changes it: a target that also occurs in another
+            # edit's new text is the domain of the open finding C02 F-target-in-new-text-of-batch, exercised there)
+            continue
         rngs.append((t["a"], t["b"]))
         edits.append({**t, "kind": kind, "new": new, "comment": ("note " + word()) if rng.random() < comment_p else None})
     return edits
